@@ -36,9 +36,9 @@ Proof. exact dump_roundtrip. Qed.
 Theorem C13_second_dump_text : forall t, dump (compile (strip t)) = dump (compile t).
 Proof. exact second_dump. Qed.
 
-(* (1) from text: any layout of the printed tokens reads back as the tree *)
+(* (1) from text: any layout of the printed tokens — white space and `;` comments between them — reads back as the tree *)
 Theorem C13_reparse : forall c items t,
-  wf_items is_letter_tab is_number_tab false items -> map fst items = ttoks show_Z t -> twf c t -> is_leaf t = false ->
+  wf_items is_letter_tab is_number_tab false items -> drop_comments (map fst items) = ttoks show_Z t -> twf c t -> is_leaf t = false ->
   parse_source c false (render items) = Some (strip t).
 Proof. intros c. exact (prefix_source c show_Z parse_show_Z). Qed.
 
